@@ -101,4 +101,23 @@ example : (Inj.all.map (fun k => (positionsP k exP).length)) = [8, 4, 4, 5, 18, 
 example : (⟨7, 0, [2, 0]⟩ : Pos) ∈ positionsP .rename exP ∧ (⟨6, 0, []⟩ : Pos) ∈ positionsP .missingAttr exP := by decide
 example : check [] [] (inject .rename ⟨7, 0, [2, 0]⟩ exP) = false := by decide
 
+/-! ### the recorded finding at its witness -/
+
+/-- c = False; x = if(c, do(-2), do(-9)); v = x < 1 -/
+def witP : List Stmt := [.defv (.lit .bool 0), .defv (.ite (.var 0) (.lit .int 1) (.lit .int 8)), .defv (.bin .lt (.var 1) (.lit .nat 1))]
+
+/-- finding C05-lt-enum-operand-accepted: the program `… v = x < "s0"` (operand injector at the `<`) is untypable in the
+    specification and falls in the recorded class; the real checker accepts it and the run raises TypeError -/
+theorem C05_witness_lt_enum :
+    check [] [] witP = true ∧ (⟨2, 0, []⟩ : Pos) ∈ positionsP .operand witP ∧
+      check [] [] (inject .operand ⟨2, 0, []⟩ witP) = false ∧ inKLtEnum .operand witP ⟨2, 0, []⟩ = true := by decide
+
+/-- v0 = 3; for! 0..<3, i => print!((i + 2) + (i * 1)) -/
+def witLoop : List Stmt := [.defv (.lit .nat 3), .forp 3 (.bin .add (.bin .add (.var 1) (.lit .nat 2)) (.bin .mul (.var 1) (.lit .nat 1)))]
+
+/-- finding C05-loopvar-mul-str-accepted at its witness: `(i + 2) + (i * "s0")` is untypable in the specification and in the class -/
+theorem C05_witness_loopvar :
+    check [] [] witLoop = true ∧ (⟨1, 0, [1]⟩ : Pos) ∈ positionsP .operand witLoop ∧
+      check [] [] (inject .operand ⟨1, 0, [1]⟩ witLoop) = false ∧ inKLoopVarMul .operand witLoop ⟨1, 0, [1]⟩ = true := by decide
+
 end ErgVerif.C05
